@@ -481,7 +481,7 @@ func ruleR02_2(c *Ctx) {
 			okR, bad := allOriginsAfter(f, z, args[1], oIsValue(zreq))
 			c.obI("R02.2", n, "authorized-request-forwarded", okR && zreq != nil, "the request forwarded after Authorize is the one Authorize returned (it carries principal and scopes)", "origin "+describeOrigin(bad))
 		} else {
-			okR, bad := allOrigins(args[1], oIsValue(f.Params[1]), oCall(1, "(*rt/middleware.Context).RouteInfo"))
+			okR, bad := allOrigins(args[1], oIsValue(hReq(f)), oCall(1, "(*rt/middleware.Context).RouteInfo"))
 			c.obI("R02.2", n, "request-forwarded", okR, "the request forwarded is the incoming request (with its route info)", "origin "+describeOrigin(bad))
 		}
 	}
@@ -627,16 +627,11 @@ func ruleR02_1(c *Ctx) {
 func ruleR02_6(c *Ctx) {
 	p := c.P
 	f := p.Fn("(*rt/middleware.defaultRouteBuilder).buildAuthenticators")
-	reqCalls := callsIn(f, "(*github.com/go-openapi/analysis.Spec).SecurityRequirementsFor")
-	c.obF("R02.6", f, "requirements-from-spec", len(reqCalls) == 1, "the alternatives come from analyzer.SecurityRequirementsFor(operation)", fmt.Sprintf("%d calls", len(reqCalls)))
-	if len(reqCalls) != 1 {
+	alts, ok := requirementAlternatives(c, "R02.6")
+	if !ok {
 		return
 	}
-	rq := reqCalls[0].(*ssa.Call)
-	_, rargs := callArgs(&rq.Call)
-	okOp, _ := allOrigins(rargs[0], oIsValue(paramOf(f, 0)))
-	c.obI("R02.6", rq, "same-operation", okOp, "requirements are looked up for the operation being routed", "")
-	outer := sliceLoops(f, vIs(rq))
+	outer := sliceLoops(f, vIs(alts))
 	c.obF("R02.6", f, "outer-loop", len(outer) == 1, "one pass over the requirement alternatives", fmt.Sprintf("%d loops", len(outer)))
 	if len(outer) != 1 {
 		return
@@ -729,4 +724,60 @@ func phiEdgeAfterCall(f *ssa.Function, a *ssa.Call, phi *ssa.Phi, i int) bool {
 		return false
 	}
 	return !pathExists(f, hdr.Instrs[0], lastInstr(pred), nil, isOneOf(a)) && pathExists(f, a, lastInstr(pred), nil, nil)
+}
+
+// requirementAlternatives identifies, in buildAuthenticators, the list of requirement alternatives and checks where it
+// comes from: analyzer.SecurityRequirementsFor(<the operation being routed>) — called in buildAuthenticators itself,
+// or by its caller when the list is handed in as a parameter.
+func requirementAlternatives(c *Ctx, rule string) (ssa.Value, bool) {
+	p := c.P
+	const reqFor = "(*github.com/go-openapi/analysis.Spec).SecurityRequirementsFor"
+	f := p.Fn("(*rt/middleware.defaultRouteBuilder).buildAuthenticators")
+	reqCalls := callsIn(f, reqFor)
+	if len(reqCalls) == 1 {
+		rq := reqCalls[0].(*ssa.Call)
+		_, rargs := callArgs(&rq.Call)
+		okOp, _ := allOrigins(rargs[0], oIsValue(paramOf(f, 0)))
+		c.obF(rule, f, "requirements-from-spec", true, "the alternatives come from analyzer.SecurityRequirementsFor(operation)", "")
+		c.obI(rule, rq, "same-operation", okOp, "requirements are looked up for the operation being routed", "")
+		return rq, true
+	}
+	// handed in by the caller
+	var prm *ssa.Parameter
+	for _, q := range f.Params {
+		if typeStr(q.Type()) == "[][]github.com/go-openapi/analysis.SecurityRequirement" {
+			prm = q
+		}
+	}
+	ar := p.Fn("(*rt/middleware.defaultRouteBuilder).AddRoute")
+	okSrc := prm != nil
+	n := 0
+	if prm != nil {
+		for _, fn := range p.LibFuncs("rt/middleware") {
+			for _, ci := range allCallsShallow(fn) {
+				if ci.Common().StaticCallee() != f {
+					continue
+				}
+				n++
+				for i, q := range f.Params {
+					if q != prm {
+						continue
+					}
+					okArg, _ := allOrigins(ci.Common().Args[i], oCallWhere(-1, reqFor, func(rq *ssa.Call) bool {
+						_, rargs := callArgs(&rq.Call)
+						okOp, _ := allOrigins(rargs[0], oIsValue(paramOfType(ar, "*github.com/go-openapi/spec.Operation")))
+						return fn == ar && okOp
+					}))
+					if !okArg {
+						okSrc = false
+					}
+				}
+			}
+		}
+	}
+	c.obF(rule, f, "requirements-from-spec", okSrc && n >= 1, "the alternatives come from analyzer.SecurityRequirementsFor(operation) — looked up by buildAuthenticators or handed in by AddRoute for the operation being routed", fmt.Sprintf("%d call sites", n))
+	if !okSrc || n == 0 {
+		return nil, false
+	}
+	return prm, true
 }
